@@ -749,14 +749,109 @@ class C02(Check):
                     "hand-written model lean/Verif/C02/Model.lean tied to the code by correspondence only"]
 
     def tables(self):
-        return ["def c02TopNodeId : Int := %d" % dmrs_mod.TOP_NODE_ID,
-                "def c02FirstNodeId : Int := %d" % dmrs_mod.FIRST_NODE_ID,
-                "def c02Cvarsort : String := %s" % tables.lean_strlit(dmrs_mod.CVARSORT),
-                "def c02EqPost : String := %s" % tables.lean_strlit(dmrs_mod.EQ_POST),
-                "def c02RestrictionRole : String := %s" % tables.lean_strlit(dmrs_mod.RESTRICTION_ROLE),
-                "def c02Pos : String := %s" % tables.lean_strlit("".join(sorted(predicate._POS))),
-                "def c02CommonProperties : List String := [%s]"
-                % ", ".join(tables.lean_strlit(p) for p in sembase._COMMON_PROPERTIES)]
+        """Generated constants the model is stated over, and PINS: every regular expression, format string,
+        key name, magic number and default value of the anchored code that the hand-written model (or the
+        oracle) mirrors, read from the live objects / code objects on every run."""
+        import types
+        from delphin import lnk as lnk_mod, util as util_mod
+        lit = tables.lean_strlit
+        MESSAGE = ("invalid", "disconnected", "expected", "could not", "unexpected")
+
+        def consts(fn):
+            """string and number constants of a function, nested code objects (comprehensions, lambdas)
+            included, in code order; docstrings, None/bool and message texts dropped"""
+            code = fn if isinstance(fn, types.CodeType) else getattr(fn, "__func__", fn).__code__
+            doc = None if isinstance(fn, types.CodeType) else fn.__doc__
+            out = []
+
+            def walk(c):
+                if isinstance(c, types.CodeType):
+                    for x in c.co_consts:
+                        walk(x)
+                elif isinstance(c, bool) or c is None:
+                    return
+                elif isinstance(c, str):
+                    if c == doc or c.lower().startswith(MESSAGE) or c.startswith("<") and "locals>" in c:
+                        return
+                    out.append(c)
+                elif isinstance(c, int):
+                    out.append(str(c))
+                elif isinstance(c, (tuple, frozenset)):
+                    for x in (sorted(c, key=repr) if isinstance(c, frozenset) else c):
+                        walk(x)
+            walk(code)
+            return out
+
+        def strlist(name, xs):
+            return "def %s : List String := [%s]" % (name, ", ".join(lit(x) for x in xs))
+
+        def defaults(fn):
+            return [repr(x) for x in (fn.__defaults__ or ())] + \
+                   ["%s=%r" % kv for kv in sorted((fn.__kwdefaults__ or {}).items())]
+
+        pos_cls = predicate._pos_re.pattern[1:-1]      # built from a set: iteration order is not fixed
+
+        def rx(r):
+            return [r.pattern.replace(pos_cls, "".join(sorted(pos_cls))), str(int(r.flags))]
+        lines = ["def c02TopNodeId : Int := %d" % dmrs_mod.TOP_NODE_ID,
+                 "def c02FirstNodeId : Int := %d" % dmrs_mod.FIRST_NODE_ID,
+                 "def c02Cvarsort : String := %s" % lit(dmrs_mod.CVARSORT),
+                 "def c02EqPost : String := %s" % lit(dmrs_mod.EQ_POST),
+                 "def c02RestrictionRole : String := %s" % lit(dmrs_mod.RESTRICTION_ROLE),
+                 "def c02Pos : String := %s" % lit("".join(sorted(predicate._POS))),
+                 "def c02CommonProperties : List String := [%s]"
+                 % ", ".join(lit(p) for p in sembase._COMMON_PROPERTIES)]
+        # ---- pins
+        lines.append(strlist("c02LexerTokens", [x for pat, name in simpledmrs._SimpleDMRSLexer.tokens for x in (pat, name)]))
+        lines.append(strlist("c02SdFormats", [simpledmrs._node, simpledmrs._link]))
+        for nm, fn in [("SdEncode", simpledmrs._encode), ("SdEncodeDmrs", simpledmrs._encode_dmrs),
+                       ("SdEncodeAttrs", simpledmrs._encode_attrs), ("SdEncodeNode", simpledmrs._encode_node),
+                       ("SdEncodeSortinfo", simpledmrs._encode_sortinfo), ("SdEncodeLink", simpledmrs._encode_link),
+                       ("SdEscape", simpledmrs._escape), ("SdUnescape", simpledmrs._unescape),
+                       ("SdDecodeDmrs", simpledmrs._decode_dmrs), ("SdDecodeNode", simpledmrs._decode_node),
+                       ("SdDecodeLink", simpledmrs._decode_link), ("SdDecodeProps", simpledmrs._decode_properties),
+                       ("SdDecodeList", simpledmrs._decode),
+                       ("XEncodeDmrs", dmrx._encode_dmrs), ("XEncodeNode", dmrx._encode_node),
+                       ("XEncodePred", dmrx._encode_pred), ("XEncodeLink", dmrx._encode_link),
+                       ("XDecodeDmrs", dmrx._decode_dmrs), ("XDecodeNode", dmrx._decode_node),
+                       ("XDecodePred", dmrx._decode_pred), ("XDecodeSortinfo", dmrx._decode_sortinfo),
+                       ("XDecodeLink", dmrx._decode_link), ("XDecodeLnk", dmrx._decode_lnk),
+                       ("XDecodeList", dmrx._decode), ("XEncodeList", dmrx._encode), ("XIndent", dmrx._indent),
+                       ("JToDict", dmrsjson.to_dict), ("JFromDict", dmrsjson.from_dict),
+                       ("PToTriples", dmrspenman.to_triples), ("PFromTriples", dmrspenman.from_triples),
+                       ("PEscape", dmrspenman._escape), ("PUnescape", dmrspenman._unescape),
+                       ("NormalizeTop", dmrs_mod._normalize_top_and_links), ("NodeSortinfo", dmrs_mod.Node.sortinfo.fget),
+                       ("DmrsInit", dmrs_mod.DMRS.__init__), ("IsQuantifier", dmrs_mod.DMRS.is_quantifier),
+                       ("StripPredicate", predicate._strip_predicate), ("PredNormalize", predicate.normalize),
+                       ("PredSplit", predicate.split), ("PredCreate", predicate.create),
+                       ("PredIsSurface", predicate.is_surface), ("PropertyPriority", sembase.property_priority),
+                       ("LnkInit", Lnk.__init__), ("LnkStr", Lnk.__str__), ("LnkBool", Lnk.__bool__),
+                       ("LnkCfrom", lnk_mod.LnkMixin.cfrom.fget), ("LnkCto", lnk_mod.LnkMixin.cto.fget),
+                       ("LnkCharspan", Lnk.charspan), ("Bfs", util_mod._bfs),
+                       ("LexerPeek", util_mod.LookaheadIterator.peek), ("LexerNext", util_mod.LookaheadIterator.next),
+                       ("LexerAccept", util_mod.LookaheadLexer.accept), ("LexerExpect", util_mod.LookaheadLexer.expect)]:
+            lines.append(strlist("c02" + nm + "Consts", consts(fn)))
+        lines.append(strlist("c02PredicateRegexes",
+                             rx(predicate._lemma_re) + rx(predicate._pos_re) + rx(predicate._sense_re)
+                             + rx(predicate._strict_predicate_re) + rx(predicate._robust_predicate_re)))
+        lines.append(strlist("c02LnkTypes", [str(x) for x in (Lnk.UNSPECIFIED, Lnk.CHARSPAN, Lnk.CHARTSPAN, Lnk.TOKENS, Lnk.EDGE)]))
+        lines.append(strlist("c02DmrxFrame", [dmrx.HEADER, dmrx.JOINER, dmrx.FOOTER, dmrsjson.HEADER, dmrsjson.JOINER, dmrsjson.FOOTER]))
+        lines.append(strlist("c02DmrsConstants", [str(dmrs_mod.TOP_NODE_ID), str(dmrs_mod.FIRST_NODE_ID), dmrs_mod.RESTRICTION_ROLE,
+                                                  dmrs_mod.BARE_EQ_ROLE, dmrs_mod.EQ_POST, dmrs_mod.HEQ_POST, dmrs_mod.NEQ_POST,
+                                                  dmrs_mod.H_POST, dmrs_mod.NIL_POST, dmrs_mod.CVARSORT]))
+        dl = []
+        for mn, mod in (("simpledmrs", simpledmrs), ("dmrx", dmrx), ("dmrsjson", dmrsjson), ("dmrspenman", dmrspenman)):
+            for fn in ("encode", "dumps", "dump"):
+                dl.append("%s.%s(%s)" % (mn, fn, ", ".join(defaults(getattr(mod, fn)))))
+        dl.append("to_dict(%s)" % ", ".join(defaults(dmrsjson.to_dict)))
+        dl.append("to_triples(%s)" % ", ".join(defaults(dmrspenman.to_triples)))
+        dl.append("LookaheadIterator(%s)" % ", ".join(defaults(util_mod.LookaheadIterator.__init__)))
+        dl.append("LookaheadLexer(%s)" % ", ".join(defaults(util_mod.LookaheadLexer.__init__)))
+        dl.append("peek(%s)" % ", ".join(defaults(util_mod.LookaheadIterator.peek)))
+        dl.append("Node(%s)" % ", ".join(defaults(dmrs_mod.Node.__init__)))
+        dl.append("DMRS(%s)" % ", ".join(defaults(dmrs_mod.DMRS.__init__)))
+        lines.append(strlist("c02Defaults", dl))
+        return lines
 
     # ---- generators
     def cases(self, rng, tier, n):
